@@ -137,4 +137,112 @@ class CheckUnique(_Core):
         return out
 
 
-CONTRACTS = [ConvertUniqueSettings, CheckName, CheckNullable, CheckUnique]
+class DeclaredDtype:
+    """schema.dtype as check_dtype sees it: `check(engine_dtype, data)` answers with a bool (type-level verdict) or a boolean
+    Series (per-element verdict of a data-dependent dtype); what `check` means is C09's business"""
+
+    __pyvc_symbolic__ = True
+
+    def __init__(self, verdict):
+        self.verdict = verdict
+        self.calls = []
+
+    def check(self, *a, **kw):
+        self.calls.append((a, kw))
+        return self.verdict
+
+
+class CheckDtype(_Core):
+    """check_dtype passes <=> the schema declares no dtype, or the declared dtype recognises the engine data type OF THE OBJECT
+    (`schema.dtype.check(Engine.dtype(obj.dtype), obj)`; C09 proves what `check` and `Engine.dtype` mean).  A data-dependent
+    `check` (boolean per element) passes iff every element passes, and the reported failure cases are the elements that do not."""
+
+    target = f"{ARR}.check_dtype.__wrapped__"
+    split = {"dtype": ["none", "type_level", "per_element"]}
+
+    def setup(self, I):
+        super().setup(I)
+        from pandera.engines.pandas_engine import Engine
+        from pyvc.spec import resolve_target
+
+        def engine_dtype(I, cls, data_type):
+            r = core.SAny(name="engine_dtype_of_object")
+            cur().ghost["resolved"] = (data_type, r)
+            return r
+
+        I.models[id(Engine.dtype.__func__)] = engine_dtype
+
+        def reshape(I, failure_cases, ignore_na=True):
+            cur().ghost["reported"] = (failure_cases, ignore_na)
+            return core.SAny(name="failure_cases")
+
+        I.models[id(resolve_target(RESHAPE))] = reshape
+
+    def make_args(self):
+        import pandera.backends.pandas.array as A
+
+        obj = SeriesVal.fresh("check_obj", "real")
+        obj.name = T.fresh_value(T.Opt(T.Label), "check_obj.name")
+        case = self.fixed.get("dtype", "type_level")
+        if case == "none":
+            dt = None
+        elif case == "type_level":
+            dt = DeclaredDtype(T.fresh_value(T.Bool, "dtype_check_verdict"))
+        else:
+            dt = DeclaredDtype(SeriesVal.fresh("dtype_check_output", "bool", nullable=False, space=obj.space))
+        schema = T.Ref(None, name=T.Opt(T.Label)).fresh("schema")
+        schema.attrs["dtype"] = dt
+        schema.attrs0["dtype"] = dt
+        return {"self": T.Ref(A.ArraySchemaBackend).fresh("self"), "check_obj": obj, "schema": schema}
+
+    def ensures(self, result, old, self_, check_obj, schema):
+        p = cur()
+        passed = result.attrs["passed"]
+        out = {"is_a_result": self.is_result(result), "reason": result.attrs["reason_code"] is SchemaErrorReason.WRONG_DATATYPE}
+        dt = schema.attrs["dtype"]
+        if dt is None:
+            out["no_declared_dtype_passes"] = passed is True
+            return out
+        out["declared_dtype_consulted_once"] = len(dt.calls) == 1
+        if len(dt.calls) != 1:
+            return out
+        args, kw = dt.calls[0]
+        res = p.ghost.get("resolved")
+        out["asked_about_the_engine_dtype_of_the_object"] = res is not None and len(args) >= 1 and args[0] is res[1] and isinstance(res[0], PL.DTypeVal)
+        out["object_handed_to_data_dependent_dtypes"] = len(args) >= 2 and args[1] is check_obj
+        v = dt.verdict
+        if isinstance(v, SeriesVal):
+            all_ok = v.forall(lambda i: core.as_z3_bool(v.at(i)))
+            out["passes_iff_every_element_is_recognised"] = Iff(passed, all_ok)
+            rep = p.ghost.get("reported")
+            out["failure_cases_reported"] = rep is not None
+            if rep is not None:
+                rows, ign = rep
+                i = z3.Int(p.fresh_name("row"))
+                out["reported_rows_are_the_unrecognised_elements"] = SBool(rows.sel(i) == z3.And(check_obj.sel(i), z3.Not(core.as_z3_bool(v.at(i)))))
+                out["nulls_are_not_dropped_from_the_report"] = ign is False
+        else:
+            out["passes_iff_the_declared_dtype_recognises_it"] = Iff(passed, v)
+        return out
+
+    def concretize(self, rec):
+        def thunk():
+            import pandas as pd
+            import pandera as pa
+
+            obs, bad = {}, False
+            for data, dtype, want in (([1, 2], int, True), ([1.0, 2.0], int, False), (["a"], str, True), ([1, 2], None, True), ([True], int, False)):
+                try:
+                    pa.SeriesSchema(dtype).validate(pd.Series(data))
+                    got = True
+                except pa.errors.SchemaError:
+                    got = False
+                if got != want:
+                    bad = True
+                    obs[f"SeriesSchema({getattr(dtype, '__name__', None)}) on {data}"] = f"accepted={got}, expected {want}"
+            return bad, obs or "dtype verdicts as declared on the probe series"
+
+        return thunk
+
+
+CONTRACTS = [ConvertUniqueSettings, CheckName, CheckNullable, CheckUnique, CheckDtype]
